@@ -2,13 +2,13 @@ package interp
 
 import (
 	"fmt"
-	"os"
-	"runtime/debug"
-	"unsafe"
 	"go/constant"
 	"go/token"
 	"go/types"
+	"os"
+	"runtime/debug"
 	"strings"
+	"unsafe"
 
 	"golang.org/x/tools/go/ssa"
 
@@ -646,7 +646,13 @@ func (m *Machine) store(addr *Value, v Value) {
 	if m.watch != nil {
 		m.checkWatch(addr)
 	}
+	if m.tl != nil {
+		m.accessCell(addr, true)
+	}
 	storeInto(addr, v)
+	if m.tl != nil {
+		m.accessCell(addr, true) // the parts of a freshly stored aggregate
+	}
 }
 
 func (m *Machine) checkWatch(addr *Value) {
@@ -659,6 +665,9 @@ func (m *Machine) checkWatch(addr *Value) {
 func (m *Machine) load(addr *Value) Value {
 	if addr == nil {
 		m.runtimePanic("invalid memory address or nil pointer dereference")
+	}
+	if m.tl != nil {
+		m.accessCell(addr, false)
 	}
 	return copyVal(*addr)
 }
@@ -868,12 +877,23 @@ func (m *Machine) callBuiltin(caller *frame, fn *ssa.Builtin, args []Value, site
 		if len(add) == 0 {
 			return dst
 		}
+		if m.tl != nil {
+			for i := range add {
+				m.accessCell(&add[i], false)
+			}
+			for i := range dst.A {
+				m.accessCell(&dst.A[i], false)
+			}
+		}
 		n := len(dst.A)
 		if n+len(add) <= cap(dst.A) {
 			r := dst.A[:n+len(add)]
 			for i, v := range add {
 				if m.watch != nil {
 					m.checkWatch(&r[n+i])
+				}
+				if m.tl != nil {
+					m.accessCell(&r[n+i], true)
 				}
 				r[n+i] = copyVal(v)
 			}
@@ -916,6 +936,9 @@ func (m *Machine) callBuiltin(caller *frame, fn *ssa.Builtin, args []Value, site
 				if m.watch != nil {
 					m.checkWatch(&dst.A[i])
 				}
+				if m.tl != nil {
+					m.accessCell(&dst.A[i], true)
+				}
 				dst.A[i] = src.B[i]
 			}
 			return m.mkInt(int64(n), 64)
@@ -926,11 +949,17 @@ func (m *Machine) callBuiltin(caller *frame, fn *ssa.Builtin, args []Value, site
 			}
 			tmp := make([]Value, n)
 			for i := 0; i < n; i++ {
+				if m.tl != nil {
+					m.accessCell(&src.A[i], false)
+				}
 				tmp[i] = copyVal(src.A[i])
 			}
 			for i := 0; i < n; i++ {
 				if m.watch != nil {
 					m.checkWatch(&dst.A[i])
+				}
+				if m.tl != nil {
+					m.accessCell(&dst.A[i], true)
 				}
 				dst.A[i] = tmp[i]
 			}
